@@ -33,10 +33,15 @@ Record backend := {
 Definition kind_indices (p : fkind -> bool) (fl : list flow) : list nat :=
   find_indices (fun f => p (f_kind f)) fl.
 
-Definition has_strain_strat (m : model) : bool := mem_str "strain" (strat_names m).
+(* model._get_strain_stratification_name() *)
+Definition strain_strat_name (m : model) : option string :=
+  match filter (fun s => is_strain (s_kind s)) (m_strats m) with
+  | s :: _ => Some (s_name s)
+  | [] => None
+  end.
 
 Definition strain_infectious_comps (m : model) (strain : string) : list nat :=
-  let filt := if has_strain_strat m then [("strain"%string, strain)] else [] in
+  let filt := match strain_strat_name m with Some n => [(n, strain)] | None => [] end in
   find_indices (fun c => query_match c filt && is_infectious_comp m c) (m_comps m).
 
 (* last category that matches, as the loop in _build_compartment_category_map leaves it *)
@@ -47,10 +52,10 @@ Definition category_of (m : model) (c : comp) : nat :=
 Definition index_in (l : list nat) (x : nat) : nat :=
   match index_of (Nat.eqb x) l with Some i => i | None => 0 end.
 
-Definition strain_of_dest (f : flow) : string :=
-  match f_dst f with
-  | Some d => match strata_get (c_strata d) "strain" with Some s => s | None => "default"%string end
-  | None => "default"%string
+Definition strain_of_dest (m : model) (f : flow) : string :=
+  match f_dst f, strain_strat_name m with
+  | Some d, Some n => match strata_get (c_strata d) n with Some s => s | None => "default"%string end
+  | _, _ => "default"%string
   end.
 
 Definition all_same_length {A} (rows : list (list A)) : bool :=
@@ -76,7 +81,7 @@ Definition prepare_structural (m : model) : result backend :=
   let inf_flows := kind_indices is_infection fl in
   do strain_lookup <- collect (fun i =>
         match nth_error fl i with
-        | Some f => match index_of (String.eqb (strain_of_dest f)) (m_strains m) with
+        | Some f => match index_of (String.eqb (strain_of_dest m f)) (m_strains m) with
                     | Some k => Ok [k]
                     | None => Err "ValueError: strain is not in list"
                     end
